@@ -81,7 +81,7 @@ Fixpoint sk_expr (e : expr) : sk :=
   | ECall f args kwargs star dstar =>
       KSeq (sk_expr f :: map sk_expr args ++ map (fun kv => sk_expr (snd kv)) kwargs
             ++ sk_opt sk_expr star ++ sk_opt sk_expr dstar)
-  | EMeth r _ args => KSeq (sk_expr r :: map sk_expr args)
+  | EMeth r _ args kwargs => KSeq (sk_expr r :: map sk_expr args ++ map (fun kv => sk_expr (snd kv)) kwargs)
   | ELambda ps body =>
       (* resolve_idents_in_def: defaults in the current scope, then enter_def, body, exit_def *)
       KSeq (map sk_param ps ++ [KFun (map param_name ps) (dedup (map param_name ps)) (sk_expr body)])
